@@ -186,6 +186,14 @@ class FPV:
         return f"FPV({self.value:f}, {self.sort})"
 
 
+def _int_to_float(value: int) -> float:
+    """float(value), except that an integer beyond the largest double rounds to infinity instead of raising."""
+    try:
+        return float(value)
+    except OverflowError:
+        return float("inf") if value > 0 else float("-inf")
+
+
 def fpToFP(a1, a2, a3=None):
     """
     Returns a FP AST and has three signatures:
@@ -222,7 +230,7 @@ def fpToFP(a1, a2, a3=None):
     if isinstance(a1, RM) and isinstance(a2, FPV) and isinstance(a3, FSort):
         return FPV(a2.value, a3)
     if isinstance(a1, RM) and isinstance(a2, BVV) and isinstance(a3, FSort):
-        return FPV(float(a2.signed), a3)
+        return FPV(_int_to_float(a2.signed), a3)
     raise ClaripyOperationError("unknown types passed to fpToFP")
 
 
@@ -232,7 +240,7 @@ def fpToFPUnsigned(_rm, thing, sort):
     whose sort is `sort`.
     """
     # thing is a BVV
-    return FPV(float(thing.value), sort)
+    return FPV(_int_to_float(thing.value), sort)
 
 
 def fpToIEEEBV(fpv):
